@@ -40,6 +40,25 @@ SEQ_ASSUME = [
 ]
 
 PLAN = {
+    "C13": {
+        "rule": "breadth-first search over terms built from 3 leaves (sizes 1,2,3; five leaf-kind configurations) with concat / subrange (all offsets and lengths incl. out-of-range) / "
+                "map / copy_region, de-duplicated on the canonical region list; one evaluation = one operation application checked against a byte-string model, plus every release order "
+                "of the handles of small terms; distinct = distinct byte strings observed",
+        "bounds": {"quick": "<=4 records, <=8 bytes, operation depth 3, release orders for depth <=2 terms with <=4 handles",
+                   "thorough": "<=6 records, <=12 bytes, depth 4 (two leaf configurations) / depth 3 (three), release orders for depth <=3"},
+        "assumptions": SEQ_ASSUME,
+        "parallel": {"quick": 1, "thorough": 1},
+        "budget_s": {"quick": 150, "thorough": 1500},
+    },
+    "C18": {
+        "rule": "attribute table: all 4032 field tuples x every constructor order (<=24) + closure under every single constructor application + invalid arguments; "
+                "dispatch_get_global_queue: identifiers x 67 flag values, full cross product; distinct = distinct attribute objects + distinct global queues",
+        "bounds": {"quick": "4032 tuples x all orders, 475776 closure steps, 66601 identifiers x 67 flags; behavioural check of concurrency/inactive on 12 representative queues",
+                   "thorough": "same attribute half; identifiers -2^24..2^24 plus boundary values x 67 flags (2.2e9 calls)"},
+        "assumptions": SEQ_ASSUME + ["queue-specific data / dispatch_assert_queue half of C18: see the dsched tasks when present"],
+        "parallel": {"quick": 1, "thorough": 1},
+        "budget_s": {"quick": 150, "thorough": 900},
+    },
     "C12": {
         "rule": "one evaluation = one (base, delta) or (timespec, delta) input of the boundary lattice, full cross product, compared with 128-bit reference arithmetic; "
                 "distinct = distinct (clock, outcome-class) results",
@@ -71,6 +90,10 @@ def tasks_for(pid, tier):
     q = tier == "quick"
     if pid == "C12":
         return sx("time_c12")
+    if pid == "C13":
+        return sx("data_c13")
+    if pid == "C18":
+        return sx("attrs_c18")
     if pid == "C09":
         return (ds("once", 3 if q else 4, [0, 1]) + ds("once", 3, [2, 3]) +
                 ds("once", 2 if q else 3, [4, 5], jobs=4 if q else 8))
